@@ -48,6 +48,7 @@ Print Assumptions C20_direction_script.
    changes an answer) is switched on iff the user asked for `likelysubtags`, and `serde` of unic-langid-impl iff the user
    asked for `serde` - whatever `macros` pulls in *)
 From UL Require FeatureUnification.
+From Coq Require Import String.
 Theorem C20_feature_unification_adds_nothing :
   FeatureUnification.unification_ok "unic-langid"%string = true /\ FeatureUnification.unification_ok "unic-locale"%string = true.
 Proof. exact FeatureUnification.feature_unification_adds_nothing. Qed.
